@@ -85,6 +85,12 @@ def input_trees(r):
                                                {"p": "g/sub/l3", "k": "l", "target": ".."}, D("dst")], ["--glob", "g/**/*.txt", "dst"])
     out["glob-doublestar-over-self-links-no-match"] = ([D("g"), F("g/a.txt", 10, 1), D("g/sub"), F("g/sub/b.txt", 10, 2), {"p": "g/l1", "k": "l", "target": "."}, {"p": "g/l2", "k": "l", "target": "."},
                                                         F("other.txt", 5, 3), D("dst")], ["--glob", "g/**/zzz", "other.txt", "dst"])
+    # ... the same with links whose names start with a dot (a `*` does not match them, `**` goes through them all the same), and with
+    # the loop some levels down, behind a hidden directory
+    out["glob-doublestar-over-self-links-hidden"] = ([D("g"), F("g/a.txt", 10, 1), D("g/sub"), F("g/sub/b.txt", 10, 2), {"p": "g/.l1", "k": "l", "target": "."}, {"p": "g/.l2", "k": "l", "target": "."},
+                                                      D("dst")], ["--glob", "-r", "g/**", "dst"])
+    out["glob-doublestar-over-self-links-hidden-deep"] = ([D("g"), F("g/a.txt", 10, 1), D("g/.cache"), D("g/.cache/x"), F("g/.cache/x/b.txt", 10, 2), {"p": "g/.cache/x/.up1", "k": "l", "target": "../.."},
+                                                           {"p": "g/.cache/x/.up2", "k": "l", "target": ".."}, {"p": "g/.cache/.here", "k": "l", "target": "."}, D("dst")], ["--glob", "g/**/*.txt", "dst"])
     out["removed-cwd-relative-destination"] = ([D("src"), F("src/a", 100, 1), D("src/sub"), F("src/sub/b", 10, 2)], ["-r", "@ROOT@/src", "newdir"])
     out["removed-cwd-relative-source"] = ([D("src"), F("src/a", 100, 1)], ["-r", "../src", "@ROOT@/dst"])
     out["removed-cwd-backup"] = ([D("src"), F("src/a", 100, 1), D("dst"), D("dst/src"), F("dst/src/a", 5, 2)], ["--backup", "numbered", "-r", "@ROOT@/src", "@ROOT@/dst"])
